@@ -72,12 +72,15 @@ pub struct Ran {
     pub complete: bool,                 // `is_subgraph_complete()` right after it returned
     pub err_pre: ErrOps,                // what had been done to the `:error:` descriptor when it started
     pub err: ErrOps,                    // ... and when it returned (a child may do anything to it)
+    pub peers_pre: vstd::seq::Seq<String>, // `next_peer_pks` when it started
+    pub peers: vstd::seq::Seq<String>,  // `next_peer_pks` when it returned (C19: where the particle goes next)
 }
 
 pub struct ExecutionCtx<'i> {
     pub last_error_descriptor: LastErrorDescriptor,
     pub error_descriptor: ErrorDescriptor,
     pub subgraph_completeness: bool,
+    pub next_peer_pks: Vec<String>,
     pub log: Ghost<Log>,
     pub ph: core::marker::PhantomData<&'i u8>,
 }
@@ -86,7 +89,8 @@ impl ExecutionCtx<'_> {
 //@ lift air/src/execution_step/execution_context/context.rs :: impl ExecutionCtx<'_> :: fn flush_subgraph_completeness
 //@ props C18
 //@ spec
-        ensures final(self).subgraph_completeness, final(self).log@ == old(self).log@, final(self).error_descriptor == old(self).error_descriptor
+        ensures final(self).subgraph_completeness, final(self).log@ == old(self).log@, final(self).error_descriptor == old(self).error_descriptor,
+            final(self).next_peer_pks == old(self).next_peer_pks
 //@ end
 
 //@ lift air/src/execution_step/execution_context/context.rs :: impl ExecutionCtx<'_> :: fn is_subgraph_complete
@@ -112,7 +116,8 @@ impl<'i> ExecutableInstruction<'i> for Instruction<'i> {
     fn execute(&self, exec_ctx: &mut ExecutionCtx<'i>, trace_ctx: &mut TraceHandler) -> (r: ExecutionResult<()>)
         ensures final(exec_ctx).log@ == old(exec_ctx).log@.push(
             Ran { id: self.id as int, res: r, complete: final(exec_ctx).subgraph_completeness,
-                  err_pre: old(exec_ctx).error_descriptor.ops@, err: final(exec_ctx).error_descriptor.ops@ })
+                  err_pre: old(exec_ctx).error_descriptor.ops@, err: final(exec_ctx).error_descriptor.ops@,
+                  peers_pre: old(exec_ctx).next_peer_pks@, peers: final(exec_ctx).next_peer_pks@ })
     { unimplemented!() }
 }
 
@@ -130,10 +135,15 @@ impl<'i> ExecutableInstruction<'i> for Instruction<'i> {
 
 // ---------------------------------------------------------------- C18.V1
 // what the property statement demands of an xor, as a relation between the log before, the log after and the result
-pub open spec fn xor_spec(left: int, right: int, log0: Log, log1: Log, r: ExecutionResult<()>, err1: ErrOps) -> bool {
+pub open spec fn xor_spec(left: int, right: int, log0: Log, log1: Log, r: ExecutionResult<()>, err1: ErrOps, peers1: vstd::seq::Seq<String>) -> bool {
     let n = log0.len() as int;
     // the left branch always runs, first
     &&& log1.len() > n
+    // C19: an xor never takes back a peer a branch has marked a call as sent to -- the trace of a failed left branch is kept, so
+    // the peers it forwarded to must be kept too: every branch starts with the list as it was (the right one with what the failed
+    // left one left behind) and the result is exactly what the last branch that ran left behind
+    &&& peers1 == log1[log1.len() - 1].peers
+    &&& (log1.len() == n + 2 ==> log1[n + 1].peers_pre == log1[n].peers)
     &&& log1.subrange(0, n) =~= log0
     &&& log1[n].id == left
     &&& if (log1[n].res matches Err(e) && catchable(e)) {
@@ -162,17 +172,17 @@ pub open spec fn xor_spec(left: int, right: int, log0: Log, log1: Log, r: Execut
 impl<'i> Xor<'i> {
 //@ lift air/src/execution_step/instructions/xor.rs :: impl <'i> super::ExecutableInstruction<'i> for Xor<'i> :: fn execute
 //@ name Xor::execute
-//@ props C18
+//@ props C18 C19
 //@ ret r
 //@ rewrite 1 "res => res," => "res => { proof { exec_ctx.log@ = exec_ctx.log@; } res }"
 //@ spec
-        ensures xor_spec(self.0.id as int, self.1.id as int, old(exec_ctx).log@, final(exec_ctx).log@, r, final(exec_ctx).error_descriptor.ops@)
+        ensures xor_spec(self.0.id as int, self.1.id as int, old(exec_ctx).log@, final(exec_ctx).log@, r, final(exec_ctx).error_descriptor.ops@, final(exec_ctx).next_peer_pks@)
 //@ end
 }
 
 impl<'i> ExecutableInstruction<'i> for Xor<'i> {
     fn execute(&self, exec_ctx: &mut ExecutionCtx<'i>, trace_ctx: &mut TraceHandler) -> (r: ExecutionResult<()>)
-        ensures xor_spec(self.0.id as int, self.1.id as int, old(exec_ctx).log@, final(exec_ctx).log@, r, final(exec_ctx).error_descriptor.ops@)
+        ensures xor_spec(self.0.id as int, self.1.id as int, old(exec_ctx).log@, final(exec_ctx).log@, r, final(exec_ctx).error_descriptor.ops@, final(exec_ctx).next_peer_pks@)
     { Xor::execute(self, exec_ctx, trace_ctx) }
 }
 
